@@ -1465,6 +1465,17 @@ fn worlds(thorough: bool) -> Vec<W> {
     below.push(Op::Swap { a_to_b: true, exact_in: true, amount: u64::MAX >> 8, lim: Lim::NextTick, v2: true }); // shifted onto -88, first of array -1
     let edge_roots: Vec<(&'static str, Vec<Op>)> = vec![("funded", fund_edge), ("on-last-tick-of-array", on_last), ("on-first-tick-of-array", on_first), ("shifted-onto-first-tick", below)];
     v.push(W { built: stdworlds::build_with_roots(&edge_spec, &edge_roots), kind: Kind::Std, fees: Fees::default(), depth: (1, 3), weight: 1.0 });
+    // tick spacing 64 with bounds exactly on a tick-array edge (5632 = slot 0 of array 1): roots whose price sits in the LAST spacing of
+    // array 0, strictly between usable ticks (tick 5631) — an upward quote is then handed the arrays the program takes (starting at
+    // the next array, whose start lies above the current tick) and must find slot 0; floor and truncating division differ here only
+    // for spacings above 1
+    v.push(W {
+        built: stdworlds::build_with_roots(&stdworlds::edge_spec("c20-edge-ts64", [Enc::Dynamic, Enc::Fixed, Enc::Dynamic]), &stdworlds::edge_roots()),
+        kind: Kind::Std,
+        fees: Fees::default(),
+        depth: (1, 2),
+        weight: 0.5,
+    });
     // tick spacing 4: one of the three spacings for which the lowest tick (-443636) is usable. Position 0 is bounded by it; one
     // root sits on the minimum price (tick -443637) after a swap crossed that bound, so every upward quote has to find it again
     {
